@@ -858,7 +858,14 @@ def b_int(ip: Any, x: Any = 0, base: Any = 10) -> Any:
             return SInt(PY_INT_OF_STR(t))
         raise raise_(ip, ValueError, "invalid literal for int() with base 10")
     if isinstance(x, SFloat):
-        raise Unsupported("int(float)")
+        # CPython: NaN -> ValueError, +-inf -> OverflowError, otherwise truncation toward zero (exact: every finite
+        # binary64 is a rational, so the real-valued view loses nothing)
+        if S.fork(SBool(z3.fpIsNaN(x.t))):
+            raise raise_(ip, ValueError, "cannot convert float NaN to integer")
+        if S.fork(SBool(z3.fpIsInf(x.t))):
+            raise raise_(ip, OverflowError, "cannot convert float infinity to integer")
+        r = z3.fpToReal(x.t)
+        return SInt(z3.If(r >= 0, z3.ToInt(r), -z3.ToInt(-r)))
     raise raise_(ip, TypeError, "int() argument must be a string, a bytes-like object or a real number")
 
 
